@@ -116,6 +116,10 @@ func (w *HttpWorker) Process(data []byte, body []byte) (bool, error) {
 		return false, err
 	}
 
+	if httpData == nil {
+		return false, fmt.Errorf("missing data for http receiver")
+	}
+
 	req, err := http.NewRequest("POST", httpData.Url, bytes.NewReader(body))
 	if err != nil {
 		return false, err
